@@ -1,4 +1,374 @@
-"""placeholder filled below"""
-def rule_allocators(ctx): pass
-def rule_selector_retirement(ctx): pass
-def rule_slot_exhaustion(ctx): pass
+"""C08: SAT-variable allocation discipline, selector retirement, slot exhaustion."""
+import re
+
+from ..core import (
+    Site,
+    callee_of,
+    callee_is,
+    callee_name,
+    callee_matches,
+    strip_generics,
+    op_place,
+    op_const,
+    origins,
+    data_deps,
+    derives_from_local,
+    place_fields,
+    self_fields_read,
+)
+from ..flow import conditions, consumers
+from ..census import field_uses
+from .dyn import dyn_impls
+
+NVARS = r"sat_solver::SatSolver::n_vars$"
+LIT_FROM = r"^<sat::sat_solver::Literal as core::convert::From<isize>>::from$|Literal.*From.*::from$"
+
+
+def nvars_alloc_sites(body):
+    """sites computing `n_vars() + 1` (either operand order)"""
+    out = []
+    for s in body.sites():
+        n = s.node
+        if s.si is None or n["k"] != "assign" or n["rv"]["k"] != "binop":
+            continue
+        rv = n["rv"]
+        if rv["op"] not in ("Add", "AddWithOverflow"):
+            continue
+        ks = [op_const(o) for o in rv["ops"]]
+        if not any(k is not None and k.get("int") == 1 for k in ks):
+            continue
+        other = [o for o, k in zip(rv["ops"], ks) if k is None]
+        if not other:
+            continue
+        _, calls, _ = data_deps(body, other[0])
+        if any(callee_matches(callee_of(c), NVARS) for c in calls):
+            out.append(s)
+    return out
+
+
+def counter_allocators(prog):
+    """functions returning `len(self.f) - 1` after pushing on self.f"""
+    out = []
+    for b in prog.lib_bodies():
+        if b.kind == "closure" or b.ret_ty != "usize" or not b.impl:
+            continue
+        fields_pushed = set()
+        for s in b.calls():
+            if callee_matches(callee_of(s), r"^alloc::vec::Vec::push$"):
+                fields_pushed |= self_fields_read(b, s.node["args"][0], through_calls=False)
+        if not fields_pushed:
+            continue
+        for o in origins(b, {"l": 0, "p": []}, transparent=()):
+            if o.kind == "binop" and o.data["op"] in ("Sub", "SubWithOverflow"):
+                k = op_const(o.data["ops"][1])
+                _, calls, _ = data_deps(b, o.data["ops"][0])
+                if k is not None and k.get("int") == 1 and any(callee_matches(callee_of(c), r"^alloc::vec::Vec::len$") for c in calls):
+                    if self_fields_read(b, o.data["ops"][0]) & fields_pushed:
+                        out.append(b)
+    return out
+
+
+def rule_allocators(ctx):
+    prog = ctx.prog
+    r = ctx.rule(
+        "alloc-mix",
+        "on a SAT solver shared through an Rc handle, fresh variables are handed out by one discipline: a private counter allocator may "
+        "coexist with `n_vars()+1` allocation reachable from the same owner only if the counter function itself reads n_vars()",
+    )
+    counters = counter_allocators(prog)
+    if not r.require_anchor(counters, "counter allocator (push + len-1) in src/dynamics"):
+        return
+    holders = []
+    for path, adt in sorted(prog.adts.items()):
+        for v in adt["variants"]:
+            for f in v["fields"]:
+                if re.search(r"^alloc::rc::Rc<core::cell::RefCell<alloc::boxed::Box<\(?dyn sat::sat_solver::SatSolver", f["ty"]):
+                    holders.append((path, f["name"]))
+    r.floor(len(holders), 6, "structs holding a shared SAT solver handle")
+    n_checked = 0
+    for cf in counters:
+        reads_nvars = any(callee_matches(callee_of(s), NVARS) for s in cf.calls())
+        for hpath, hfield in holders:
+            methods = [b for b in prog.lib_bodies() if b.kind != "closure" and b.impl and b.impl.get("self_adt") == hpath]
+            reach = prog.reachable_from(methods, virtual_dispatch=False)
+            if cf.id not in reach:
+                continue
+            # n_vars()+1 allocations reachable from the holder, outside the counter function
+            others = []
+            for x in reach.values():
+                if x is cf:
+                    continue
+                for s in nvars_alloc_sites(x):
+                    others.append((x, s))
+            n_checked += 1
+            if not others:
+                r.ok("%s|%s" % (hpath, cf.path), "only the counter allocator is reachable from %s" % hpath, cf.loc())
+                continue
+            where = sorted({prog.enclosing_fn(x).path for x, _ in others})
+            r.check(
+                reads_nvars,
+                "%s.%s" % (hpath, hfield),
+                "{n_vars+1 via %s, counter via %s}" % (",".join(strip_generics(w).rsplit("::", 2)[-2] + "::" + w.rsplit("::", 1)[-1] for w in where), cf.path.rsplit("::", 1)[-1]),
+                "counter allocator %s follows the solver's variable count" % cf.path,
+                "%s allocates SAT variables both by `n_vars()+1` (%s) and by the private counter %s, which never learns about the former: a later argument can be given a variable already used as a selector" % (hpath, where, cf.path),
+                others[0][1].loc(),
+            )
+    r.floor(n_checked, 3, "(holder, counter allocator) pairs")
+
+
+def id_label_roots(prog, body, idop, depth=0):
+    """parameters of `body` holding the label whose id this operand is:
+    id = Label::id(unwrap(ArgumentSet::get_argument(_, L)))  or a local helper returning such an id"""
+    roots = set()
+    for o in origins(body, idop, transparent=()):
+        if o.kind != "call":
+            continue
+        c = o.data
+        nm = strip_generics(callee_name(c) or "")
+        if nm == "utils::label::Label::id":
+            for oo in origins(body, o.site.node["args"][0]):
+                if oo.kind == "call" and callee_matches(oo.data, r"^aa::arguments::ArgumentSet::get_argument$|^utils::label::LabelSet::get_label$"):
+                    for o3 in origins(body, oo.site.node["args"][1]):
+                        if o3.kind == "param":
+                            roots.add(("param", o3.data))
+                        elif o3.kind == "upvar":
+                            roots.add(("upvar", o3.data))
+                        else:
+                            roots.add(("local", repr(o3.key())))
+        else:
+            tgt = prog.body_for_callee(c, body) if c.get("decl") != "<indirect>" else None
+            if tgt is not None and tgt.ret_ty == "usize" and depth < 3:
+                for kind, k in id_label_roots(prog, tgt, {"l": 0, "p": []}, depth + 1):
+                    if kind == "param" and k - 1 < len(o.site.node["args"]):
+                        for o3 in origins(body, o.site.node["args"][k - 1]):
+                            if o3.kind == "param":
+                                roots.add(("param", o3.data))
+                            elif o3.kind == "upvar":
+                                roots.add(("upvar", o3.data))
+                            else:
+                                roots.add(("local", repr(o3.key())))
+    return roots
+
+
+def _label_roots(body, op):
+    out = set()
+    for o3 in origins(body, op):
+        if o3.kind == "param":
+            out.add(("param", o3.data))
+        elif o3.kind == "upvar":
+            out.add(("upvar", o3.data))
+        else:
+            out.add(("local", repr(o3.key())))
+    return out
+
+
+def rule_selector_retirement(ctx):
+    prog = ctx.prog
+    r = ctx.rule(
+        "selector-retirement",
+        "selector-based encoder: constraints are re-issued for the *attacked* argument of a changed attack; re-issuing retires the recorded "
+        "selector (unit clause of its negation and removal from the active assumptions) exactly when one is recorded, then records the new one",
+    )
+    # the re-encoding function: pushes a fresh selector literal on the assumptions field
+    enc = None
+    for b in prog.lib_bodies():
+        if b.kind == "closure" or not b.path.startswith("dynamics::") or not b.impl:
+            continue
+        adt = prog.adt(b.impl.get("self_adt") or "")
+        if not adt:
+            continue
+        lit_vecs = [f["name"] for v in adt["variants"] for f in v["fields"] if f["ty"] == "alloc::vec::Vec<sat::sat_solver::Literal>"]
+        if not lit_vecs:
+            continue
+        for u in field_uses(prog, adt["path"], lit_vecs[0], bodies=[b]):
+            if u.op == "alloc::vec::Vec::push":
+                enc = (b, adt, lit_vecs[0])
+    if not r.require_anchor(enc, "re-encoding function pushing a selector on the active-assumption list"):
+        return
+    reb, adt, afield = enc
+    owner = adt["path"]
+    # (b) retirement
+    retire = None
+    for b in prog.lib_bodies():
+        if b.impl and b.impl.get("self_adt") == owner and b.kind != "closure":
+            us = [u for u in field_uses(prog, owner, afield, bodies=[b]) if u.mut and u.op in ("alloc::vec::Vec::swap_remove", "alloc::vec::Vec::remove", "alloc::vec::Vec::retain")]
+            if us:
+                retire = (b, us[0])
+    if r.require_anchor(retire, "function removing a selector from the active-assumption list"):
+        rb, ru = retire
+        adds = [s for s in rb.calls() if callee_matches(callee_of(s), r"sat_solver::SatSolver::add_clause$")]
+        ok_unit = False
+        for s in adds:
+            if rb.postdominates(s, (0, -1)):
+                # unit clause of the negated selector literal built from the parameter
+                _, calls, _ = data_deps(rb, s.node["args"][1])
+                neg = any(callee_matches(callee_of(c), r"sat_solver::Literal::negate$") for c in calls)
+                from_param = derives_from_local(rb, s.node["args"][1], 2)
+                ok_unit = ok_unit or (neg and from_param)
+        r.check(ok_unit, rb.id, "no-unit-clause", "retiring adds the unit clause of the negated selector on every path", "retiring a selector does not add the unit clause of its negation", rb.loc())
+        r.check(rb.postdominates(ru.site, (0, -1)), rb.id, "assumption-kept", "retiring removes the selector from the active assumptions on every path", "a retired selector can stay in the active assumptions", ru.site.loc())
+        # called from the re-encoding function on the Some arm of the recorded selector
+        calls = [s for s in reb.calls() if (callee_of(s) or {}).get("decl") == rb.path or strip_generics(callee_name(callee_of(s)) or "") == strip_generics(rb.path)]
+        ok_arm = False
+        for s in calls:
+            for c in conditions(reb, s.bb):
+                if c.is_discr and not c.negated and c.values == ["1"]:
+                    ok_arm = True
+        r.check(bool(calls) and ok_arm, reb.id, "retire-unconditional-or-missing", "re-issuing retires the previous selector when one is recorded", "re-issuing constraints does not retire the previously recorded selector", reb.loc())
+    # record of the new selector: table store Some(..) after the push
+    tbl = [f["name"] for v in adt["variants"] for f in v["fields"] if f["ty"] == "alloc::vec::Vec<core::option::Option<usize>>"]
+    stores = []
+    for f in tbl:
+        for u in field_uses(prog, owner, f, bodies=[reb]):
+            if u.mut and u.op.startswith("index_mut>store-through") and u.op.endswith(":Some"):
+                stores.append(u)
+    r.check(bool(stores), reb.id, "selector-not-recorded", "the new selector is recorded in the per-argument table", "the new selector is not recorded in the per-argument table", reb.loc())
+    # (a) which argument is re-encoded
+    n = 0
+    for b in prog.lib_bodies():
+        fn = prog.enclosing_fn(b)
+        if not fn.path.startswith("dynamics::"):
+            continue
+        for s in b.calls():
+            c = callee_of(s)
+            if not callee_matches(c, r"^aa::aa_framework::AAFramework::(new_attack|remove_attack)$"):
+                continue
+            if not (fn.impl and fn.impl.get("self_adt") == owner):
+                continue
+            n += 1
+            roots_to = _label_roots(b, s.node["args"][2])
+            recalls = [x for x in b.calls() if strip_generics(callee_name(callee_of(x)) or "") == strip_generics(reb.path) and b.reaches(s.bb, x.bb)]
+            ok = bool(recalls)
+            for x in recalls:
+                got = id_label_roots(prog, b, x.node["args"][2])
+                if not got or not got <= roots_to:
+                    ok = False
+            r.check(ok, b.id, "wrong-argument-reencoded", "after %s the attacked argument is re-encoded" % strip_generics(callee_name(c)).rsplit("::", 1)[-1], "after %s the constraints of the attacked argument are not re-issued (id does not derive from the `to` operand)" % strip_generics(callee_name(c)).rsplit("::", 1)[-1], s.loc())
+    r.floor(n, 2, "attack updates in the selector-based encoder")
+    # buffered replay: the id registered for re-encoding derives from the attacked label
+    n2 = 0
+    for b in prog.lib_bodies():
+        if b.kind != "closure":
+            continue
+        for s in b.calls():
+            c = callee_of(s)
+            if c and strip_generics(callee_name(c)) in (strip_generics(owner + "::new_attack"), strip_generics(owner + "::remove_attack")):
+                n2 += 1
+                roots_to = _label_roots(b, s.node["args"][3])
+                ok = False
+                bad = False
+                for x in b.calls():
+                    if x.bb != s.bb and b.reaches(s.bb, x.bb) and not b.reaches(x.bb, s.bb):
+                        cx = callee_of(x)
+                        if cx and callee_matches(cx, r"ops::function::FnMut::call_mut$|ops::function::Fn::call$"):
+                            # argument tuple (id,)
+                            for o in origins(b, x.node["args"][1], transparent=()):
+                                if o.kind == "agg" and o.data["kind"] == "tuple":
+                                    got = id_label_roots(prog, b, o.site.node["rv"]["ops"][0])
+                                    if got and got <= roots_to:
+                                        ok = True
+                                    elif got:
+                                        bad = True
+                r.check(ok and not bad, b.id + "|" + strip_generics(callee_name(c)).rsplit("::", 1)[-1], "replay-wrong-argument", "replay registers the attacked argument for re-encoding", "the replay registers an argument other than the attacked one for re-encoding", s.loc())
+    r.floor(n2, 2, "attack replays in the buffered selector-based encoder")
+
+
+def rule_slot_exhaustion(ctx):
+    prog = ctx.prog
+    r = ctx.rule(
+        "slot-exhaustion",
+        "attack-assumption encoder: the must-re-encode flag is raised when the next argument slot reaches the number of slots; the encode "
+        "functions clear the flag and rebuild every table before use; the assumptions of a query are recomputed from the framework in that query",
+    )
+    # owner: struct in dynamics with a bool field and an f64 field (reservation factor)
+    owner = None
+    for path, adt in sorted(prog.adts.items()):
+        if not path.startswith("dynamics::"):
+            continue
+        tys = [f["ty"] for v in adt["variants"] for f in v["fields"]]
+        if "f64" in tys and "bool" in tys and any("SatSolver" in t for t in tys):
+            owner = adt
+    if not r.require_anchor(owner, "attack-assumption encoder (struct with reservation factor, flag and shared solver)"):
+        return
+    opath = owner["path"]
+    flag = [f["name"] for v in owner["variants"] for f in v["fields"] if f["ty"] == "bool"]
+    if not r.require_anchor(len(flag) == 1, "single bool flag field"):
+        return
+    flag = flag[0]
+    sets_true = []
+    sets_false = []
+    for u in field_uses(prog, opath, flag):
+        if u.mut and u.op == "store":
+            n = u.site.node
+            k = op_const(n["rv"]["ops"][0]) if n["rv"]["k"] == "use" else None
+            if k is not None and k.get("bool") is True:
+                sets_true.append(u)
+            elif k is not None and k.get("bool") is False:
+                sets_false.append(u)
+            else:
+                r.violation(opath + "." + flag, "non-constant-store", "the re-encode flag is assigned a non-constant value", u.site.loc())
+    r.floor(len(sets_true), 1, "sites raising the re-encode flag")
+    for u in sets_true:
+        b = u.site.body
+        ok = False
+        for c in conditions(b, u.site.bb):
+            for o in origins(b, c.place, transparent=()):
+                if o.kind == "binop" and o.data["op"] in ("Ge", "Gt", "Le", "Lt", "Eq") and c.is_true() or (o.kind == "binop" and o.data["op"] in ("Lt", "Le") and c.is_false()):
+                    a, bb_ = o.data["ops"]
+                    fa = self_fields_read(b, a, through_calls=False)
+                    fb = self_fields_read(b, bb_, through_calls=False)
+                    if fa and fb and fa != fb:
+                        ok = True
+        r.check(ok, u.fn.id + "|raise", "unguarded-raise", "flag raised under a comparison of the next slot with the slot count", "the re-encode flag is not raised by a comparison of the next slot with the number of slots", u.site.loc())
+    # encode functions: clear the flag and rebuild tables
+    tables = [f["name"] for v in owner["variants"] for f in v["fields"] if f["ty"].startswith("alloc::vec::Vec<")]
+    scalars = [f["name"] for v in owner["variants"] for f in v["fields"] if f["ty"] == "usize"]
+    r.floor(len(sets_false), 2, "encode functions clearing the flag")
+    for u in sets_false:
+        b = u.site.body
+        fnb = u.fn
+        # early return when the flag is false
+        early = False
+        for s in b.exits():
+            pass
+        # whole-field assignments
+        missing = []
+        for f in tables + scalars:
+            st = [x for x in field_uses(prog, opath, f, bodies=[fnb]) if x.mut and x.op.startswith("store") and not x.op.startswith("store-elem") and x.site.body is fnb]
+            if not st or not all(fnb.dominates(u.site, x.site) or x.site.bb == u.site.bb for x in st[:1]):
+                missing.append(f)
+        r.check(not missing, fnb.id, "tables-not-rebuilt:%s" % missing, "encode function reassigns every table (%s)" % (tables + scalars), "the full re-encoding does not rebuild %s" % missing, fnb.loc())
+        # solver replaced by a fresh one:  *self.solver.borrow_mut() = factory()
+        fresh = False
+        for s in fnb.sites():
+            n = s.node
+            if s.si is not None and n["k"] == "assign" and n["dst"]["p"] and n["dst"]["p"][0] == "*":
+                if any(o.kind == "call" and callee_matches(o.data, r"cell::RefCell::borrow_mut$") for o in origins(fnb, {"l": n["dst"]["l"], "p": []}, transparent=("core::ops::deref::DerefMut::deref_mut", "core::ops::deref::Deref::deref"))):
+                    if any(o.kind == "call" and (callee_matches(o.data, r"ops::function::Fn::call$") or o.data.get("decl") == "<indirect>") for o in origins(fnb, n["rv"]["ops"][0], transparent=())):
+                        fresh = True
+        r.check(fresh, fnb.id, "solver-not-replaced", "the full re-encoding starts from a fresh SAT solver", "the full re-encoding keeps the old SAT solver (stale clauses survive)", fnb.loc())
+        # the guard: function returns early unless the flag is set
+        guarded = False
+        for c in conditions(fnb, u.site.bb):
+            if flag in self_fields_read(fnb, c.place, through_calls=False):
+                guarded = True
+        r.check(guarded, fnb.id, "unguarded-encode", "re-encoding happens only when the flag is set", loc=fnb.loc())
+    # assumptions recomputed in each query
+    n = 0
+    for imp in dyn_impls(prog):
+        sadt = prog.adt(imp.get("self_adt") or "")
+        if not sadt:
+            continue
+        # solvers whose encoder is the attack-assumption one
+        if not any(opath.rsplit("::", 2)[0] in f["ty"] for v in sadt["variants"] for f in v["fields"]):
+            continue
+        for b in prog.lib_bodies():
+            if b.kind == "closure" or not b.impl or b.impl.get("self_adt") != sadt["path"]:
+                continue
+            for s in b.calls():
+                if callee_matches(callee_of(s), r"SatSolver::solve_under_assumptions$"):
+                    n += 1
+                    _, calls, _ = data_deps(b, s.node["args"][1])
+                    ok = any(strip_generics(callee_name(callee_of(c)) or "") == opath + "::assumptions" for c in calls)
+                    r.check(ok, b.id, "stale-assumptions", "assumptions are recomputed from the framework inside the query", "the query does not recompute the attack assumptions from the current framework", s.loc())
+    r.floor(n, 3, "SAT calls of the attack-assumption solvers")
